@@ -5,7 +5,22 @@ LEVEL = cp.LEVEL
 ASSUMPTIONS = cp.ASSUMPTIONS
 
 
+def session_backlog_probe():
+    """the blocking thread session's read_queue is the pollable Queue: more received messages than the wake-up socket pair
+    holds as single bytes must still all be handed over, in order (harness/reactor_drv.queue_backlog_probe: a producer thread -
+    the reactor's role - puts 700 items while the application is not reading, then the application reads while readable)"""
+    import reactor_drv as rd
+    return rd.queue_backlog_probe()
+
+
 def run(ctx, res):
+    if ctx.scale == 1:
+        p = session_backlog_probe()
+        res.evaluations += 1
+        res.count('session_backlog_probe')
+        if p:
+            res.failures.append(dict(signature='C12: blocking session backlog', what='blocking thread session read_queue: ' + p,
+                                     case=dict(probe='backlog')))
     cp.run('C12', ctx, res,
            'same histories as C11. Compared with the model: messages handed to read() / callbacks, the queue and the waiting readers '
            'after every event. Oracle: an independent decoder of the bytes delivered to each connection gives the OP_PUBLISH / '
@@ -14,4 +29,7 @@ def run(ctx, res):
 
 
 def replay(ctx, case):
+    if isinstance(case, dict) and case.get('probe') == 'backlog':
+        p = session_backlog_probe()
+        return ('blocking thread session read_queue: ' + p) if p else None
     return cp.replay('C12', ctx, case)
